@@ -552,4 +552,6 @@ def extract_const(src, name, cppdefs=()):
     else:
         val = ms[0].group(2)
     val = re.sub(r'static_cast<\s*(\w+)\s*>\s*\(', r'(\1)(', val)
+    val = re.sub(r'\(std::numeric_limits<\s*(\w+)\s*>::max\)\s*\(\)', r'VF_NUMLIM_MAX_\1', val)
+    val = re.sub(r'\bstd::numeric_limits<\s*(\w+)\s*>::(max|lowest|min)\s*\(\)', r'VF_NUMLIM_\2_\1', val)
     return '#define %s (%s)' % (name, val.strip()), src.count('\n', 0, ms[0].start()) + 1
